@@ -42,11 +42,11 @@ let next_stage st = match next st with
 let next_ecls st = match next st with
   | "EValueError" -> EValueError | "ERepoInit" -> ERepoInit | "ENoCandidate" -> ENoCandidate
   | "EMetadata" -> EMetadata | "ECompilation" -> ECompilation | "ESystemExit" -> ESystemExit
-  | "EOther" -> EOther | t -> failwith ("bad ecls " ^ t)
+  | "EOSError" -> EOSError | "EOther" -> EOther | t -> failwith ("bad ecls " ^ t)
 let ecls_name = function
   | EValueError -> "EValueError" | ERepoInit -> "ERepoInit" | ENoCandidate -> "ENoCandidate"
   | EMetadata -> "EMetadata" | ECompilation -> "ECompilation" | ESystemExit -> "ESystemExit"
-  | EOther -> "EOther"
+  | EOSError -> "EOSError" | EOther -> "EOther"
 
 let handle line =
   let st = mk (tokens line) in
